@@ -418,8 +418,6 @@ impl EndpointConfigBuilder {
         let cert_verifier = Arc::new(CertVerifier {
             server_names: vec![primary_server_name.clone()],
         });
-        #[cfg(bmwill_anemo_verif)]
-        crate::verif::crypto::note_verifier(&cert_verifier);
         let (primary_certificate, pkcs8_der) = Self::generate_cert(&keypair, &primary_server_name);
 
         // Client only uses the primary `server_name` when initiating outbound connections
@@ -523,6 +521,8 @@ impl EndpointConfigBuilder {
         cert_verifier: Arc<CertVerifier>,
         transport_config: Arc<quinn::TransportConfig>,
     ) -> Result<quinn::ClientConfig> {
+        #[cfg(bmwill_anemo_verif)]
+        crate::verif::crypto::note_verifier(&cert_verifier);
         let client_crypto = rustls::ClientConfig::builder_with_provider(Arc::new(
             rustls::crypto::ring::default_provider(),
         ))
